@@ -98,6 +98,23 @@ impl Engine for E {
                     ("perturb.set_member.set_makes_statement_false", 30 * s),
                     ("perturb.set_nonmember.set_makes_statement_false", 15 * s),
                     ("perturb.set_member.L", 20 * s),
+                    ("perturb.range.lr_short", 40 * s),
+                    ("perturb.range.lr_long", 40 * s),
+                    ("perturb.range.lr_long_zero", 40 * s),
+                    ("perturb.range.lr_long2", 40 * s),
+                    ("perturb.set_member.lr_long", 30 * s),
+                    ("perturb.set_member.lr_long_zero", 30 * s),
+                    ("perturb.set_member.lr_long2", 30 * s),
+                    ("perturb.set_nonmember.lr_long", 15 * s),
+                    ("perturb.set_nonmember.lr_long2", 15 * s),
+                    ("complete.leq_same_commitment", 10 * s),
+                    ("perturb.leq.same_commitment_out_of_range", 20 * s),
+                    ("perturb.in_range.equal_bounds", 20 * s),
+                    ("set_member.member_twice.V1", 4 * s),
+                    ("set_member.member_twice.V2", 4 * s),
+                    ("set_member.last_repeated_by_padding.V1", 3 * s),
+                    ("set_member.last_repeated_by_padding.V2", 3 * s),
+                    ("set_member.position.twice", 15 * s),
                     ("perturb.set_nonmember.L", 10 * s),
                 ]);
             }
